@@ -161,6 +161,16 @@ impl<'a> StateMachine<'a> {
                 }
             }
 
+            // A hunk header is written when the first line of its hunk arrives. If what arrives
+            // instead starts something new (truncated or hand-edited input), write it now.
+            if matches!(self.state, State::HunkHeader(_, _, _, _))
+                && (self.line.starts_with("diff ")
+                    || self.line.starts_with("@@")
+                    || self.config.commit_regex.is_match(&self.line))
+            {
+                self.emit_pending_hunk_header()?;
+            }
+
             // Every method named handle_* must return std::io::Result<bool>.
             // The bool indicates whether the line has been handled by that
             // method (in which case no subsequent handlers are permitted to
@@ -188,11 +198,23 @@ impl<'a> StateMachine<'a> {
             self.verif_trace_line("line");
         }
 
+        self.emit_pending_hunk_header()?;
         self.handle_pending_line_with_diff_name()?;
         self.painter.paint_buffered_minus_and_plus_lines();
         self.painter.emit()?;
         #[cfg(dandavison_delta_verif)]
         self.verif_trace_line("end");
+        Ok(())
+    }
+
+    /// Write a hunk header that is still waiting for the first line of its hunk.
+    fn emit_pending_hunk_header(&mut self) -> std::io::Result<()> {
+        if let State::HunkHeader(diff_type, parsed_hunk_header, line, raw_line) =
+            &self.state.clone()
+        {
+            self.emit_hunk_header_line(parsed_hunk_header, line, raw_line)?;
+            self.state = State::HunkZero(diff_type.clone(), None);
+        }
         Ok(())
     }
 
